@@ -413,6 +413,28 @@ def rule_access_from_mode(ctx):
             else:
                 ctx.violated("ACCMODE", key, f.where(x[4]), "`%s` does not depend on the requested access mode: an element opened for reading gets the same access bits as one opened for writing, "
                              "and Hwrite's permission test passes on it" % render(x)[:70])
+    # routines that build an access record without a requested mode (conversions of an existing element: HRPconvert) must take
+    # the access bits from what the file was opened with
+    for f in prog.lib_funcs():
+        pn = [p[0] for p in f.params]
+        if "acc_mode" in pn or not f.rel.startswith("hdf/src/"):
+            continue
+        for i, x in enumerate([x for _b, _i, _s, x in f.nodes(True) if x[0] == "asg" and x[1] == "=" and mem_field(x[2]) == ("accrec_t", "access")]):
+            r = strip(x[3])
+            if not (is_int(r) and int_val(r) & 2):
+                continue  # not a constant that grants write access
+            n += 1
+            guarded = any(t.get("cond") is not None and (t.get("l") or 0) < x[4] and any(y[0] == "mem" and y[2] == "access" and y[3] == "filerec_t" for y in walk(t["cond"], True))
+                          for t in (b.get("term") for b in f.blocks.values()) if t)
+            if guarded:
+                ctx.holds("ACCMODE", "ACCMODE:%s#c%d" % (f.name, i + 1), f.where(x[4]), "a creator: the file's write access was tested before the record is given read/write access", nontrivial=True)
+                continue
+            ctx.violated("ACCMODE", "ACCMODE:%s#c%d" % (f.name, i + 1), f.where(x[4]), "`%s` grants write access by a constant in a routine that is not told the requested mode: the access "
+                         "record of an element of a file opened read-only passes Hwrite's permission test" % render(x)[:60])
+        for i, x in enumerate([x for _b, _i, _s, x in f.nodes(True) if x[0] == "asg" and x[1] == "=" and mem_field(x[2]) == ("accrec_t", "access") and not is_int(strip(x[3]))]):
+            if any(y[0] == "mem" and y[2] == "access" and y[3] == "filerec_t" for y in walk(x[3], True)):
+                n += 1
+                ctx.holds("ACCMODE", "ACCMODE:%s#f%d" % (f.name, i + 1), f.where(x[4]), "access bits taken from the file's access mode", nontrivial=True)
     ctx.floor("ACCMODE", 4, n, "(stores to access_rec->access in mode-parameterised start-access routines)")
     return n
 
